@@ -4,7 +4,8 @@ open Tally Tally.Drv
 def suites : List (String × Suite) := [
   ("c03", Tally.Drv.C03.suite),
   ("c06", Tally.Drv.C06.suite),
-  ("c01", Tally.Drv.C01.suite)
+  ("c01", Tally.Drv.C01.suite),
+  ("c02", Tally.Drv.C02.suite)
 ]
 
 partial def loop (inp : IO.FS.Stream) (out : IO.FS.Stream) (s : Suite) (st : s.σ) : IO Unit := do
